@@ -99,6 +99,17 @@ def bus_cases(tier):
     return out
 
 
+def twobind_cases(tier):
+    """Two (three) bindings of ONE struct whose signal blocks differ: what is computed for one binding
+    must not leak into the next (the generator lays all of them out with one encoder)."""
+    out = []
+    optsets = [(), (0,), (1,), (0, 1)]
+    for a, b in itertools.product(optsets, repeat=2):
+        for muxb in (None, {"signal": 0, "count": 2, "on": (1,)}):
+            out.append(("twobind", {"fields": (U(16), U(16), I(8)), "bigs": (a, b), "mux_second": muxb}))
+    return out
+
+
 def build_case(kind, spec, idx, h):
     """-> (decl list, [binding descriptors]) ; binding = dict(struct, name, id, bus, options)"""
     decls = []
@@ -114,6 +125,18 @@ def build_case(kind, spec, idx, h):
             name = ("R%d_%d" % (idx, k)) if spec["rename"] else None
             decls.append(("impl", "can", sname, name, tuple(fields), ()))
             bindings.append({"struct": sname, "name": name or sname, "id": spec["ids"][k], "bus": spec["buses"][k] or "default", "big": set(), "mux": None})
+        return decls, bindings
+    if kind == "twobind":
+        sname = "S%d" % idx
+        decls.append(("struct", sname, tuple(("f%d" % i, i, t, None, None) for i, t in enumerate(spec["fields"]))))
+        for k, big in enumerate(spec["bigs"]):
+            sigs = [("f%d" % i, (("endianess", "big"),)) for i in big]
+            mux = spec["mux_second"] if k == 1 else None
+            if mux:
+                sigs = [sg for sg in sigs if sg[0] not in ["f%d" % i for i in mux["on"]]] + [("f%d" % i, (("mux_signal", "f%d" % mux["signal"]), ("mux_count", mux["count"])) + ((("endianess", "big"),) if i in big else ())) for i in mux["on"]]
+            name = sname if k == 0 else "T%d" % idx
+            decls.append(("impl", "can", sname, None if k == 0 else name, (("id", (2 * idx + k) % 2048),), tuple(sigs)))
+            bindings.append({"struct": sname, "name": name, "id": (2 * idx + k) % 2048, "bus": "default", "big": {"f%d" % i for i in big}, "mux": mux})
         return decls, bindings
     sname = "S%d" % idx
     fields = []
@@ -185,7 +208,7 @@ def value_rows(leaves, env, limit=48):
 
 
 def feature_class(kind, spec):
-    if kind in ("buses",):
+    if kind in ("buses", "twobind"):
         return kind
     f = []
     for t in spec["fields"]:
@@ -371,7 +394,7 @@ def unit_map(decls, sname):
 def run(tier):
     common.bind_repo()
     r = Run("C05", tier)
-    cases = layout_cases(tier) + endian_cases(tier) + mux_cases(tier) + unit_cases(tier) + bus_cases(tier)
+    cases = layout_cases(tier) + endian_cases(tier) + mux_cases(tier) + unit_cases(tier) + bus_cases(tier) + twobind_cases(tier)
     counts = {}
     for k, _ in cases:
         counts[k] = counts.get(k, 0) + 1
